@@ -228,7 +228,7 @@ pub fn structural_damage(p: &Parsed, image: &Image, rng: &mut Rng) -> DamageOp {
         6 => DamageOp::SwapBlocks { file_a: file, block_a: rng.usize_below(4), file_b: rng.usize_below(nfiles), block_b: rng.usize_below(4) },
         7 => DamageOp::SwapFiles { file_a: file, file_b: rng.usize_below(nfiles) },
         8 => DamageOp::AppendGarbage { file, len: *rng.pick(&[1usize, 7, 100, BLOCK, BLOCK + 5]), seed: rng.next_u64() },
-        9 => DamageOp::AddEntry { name: rng.pick(&["wal-0000000000000000000", "wal-000000000000000000001", "lost+found", "wal-00000000000000000abc", ".wal-00000000000000000001"]).to_string(), kind: rng.below(3) as u8, len: rng.usize_below(300), seed: rng.next_u64() },
+        9 => DamageOp::AddEntry { name: rng.pick(&["wal-0000000000000000000", "wal-000000000000000000001", "lost+found", "wal-00000000000000000abc", ".wal-00000000000000000001", "wal-99999999999999999999", "wal-18446744073709551616", "wal-+0000000000000000007", "wal--0000000000000000007"]).to_string(), kind: rng.below(3) as u8, len: rng.usize_below(300), seed: rng.next_u64() },
         10 => DamageOp::AddEntry { name: wal_name(next_number), kind: rng.below(2) as u8, len: 0, seed: 0 },
         11 => DamageOp::AddEntry { name: wal_name(*rng.pick(&[u64::MAX, u64::MAX - 1, 0, 1 << 63])), kind: 2, len: *rng.pick(&[0usize, 5, BLOCK, FILE_BYTES]), seed: rng.next_u64() },
         _ => aimed_overwrite(p, image, rng),
